@@ -249,7 +249,7 @@ func wfMemFact(arr *Term, sort string, ctr *Term) *Term {
 		return Forall([]*Term{l}, Imp(alloc, Lt(App("root", "Int", sel), ctr)))
 	case es == "Slice":
 		return Forall([]*Term{l}, Imp(alloc, And(Lt(App("root", "Int", App("sarr", "Loc", sel)), ctr), Le(IntLit(0), App("slen", "Int", sel)),
-			Le(App("slen", "Int", sel), App("scap", "Int", sel)), Le(IntLit(0), App("soff", "Int", sel)))))
+			Le(App("slen", "Int", sel), App("scap", "Int", sel)), Le(IntLit(0), App("soff", "Int", sel)), Le(App("scap", "Int", sel), BigLit(pow2(46))))))
 	case strings.HasPrefix(es, "(Array ") && arrayElemSort(es) == "Loc":
 		ks := es[len("(Array ") : len(es)-len(" Loc)")]
 		k := BVar("wk", ks)
